@@ -143,6 +143,11 @@ def excel_rows(source_path, sheet=1):
         raise errors.DataFormatError("cannot read Excel file: %s" % error, location)
     except UnicodeError as error:
         raise errors.DataFormatError("cannot decode Excel data: %s" % error, location)
+    except (errors.DataFormatError, OSError):
+        raise
+    except Exception as error:
+        # For example zipfile.BadZipFile, zlib.error or EOFError on damaged *.xlsx files.
+        raise errors.DataFormatError("cannot read damaged Excel file: %s" % error, location)
 
 
 def _raise_delimited_data_format_error(delimited_path, reader, error):
